@@ -221,6 +221,16 @@ class Sym:
                 cur = env.get(s.target.id, ("unbound", s.target.id))
                 env[s.target.id] = self._binop(OPNAMES.get(type(s.op), "?"), cur, self.expr(s.value, env, depth))
                 continue
+            if isinstance(s, ast.AugAssign) and isinstance(s.target, ast.Attribute) and dotted(s.target) is not None:
+                # self.hits += 1: a counter kept on an object; what is read from it later in the function sees the new value
+                import copy as _copy
+                load = _copy.deepcopy(s.target)
+                for n_ in ast.walk(load):
+                    if hasattr(n_, "ctx"):
+                        n_.ctx = ast.Load()
+                cur = self.expr(load, env, depth)
+                self._bind(s.target, self._binop(OPNAMES.get(type(s.op), "?"), cur, self.expr(s.value, env, depth)), env)
+                continue
             if isinstance(s, ast.Return):
                 if collect is not None:
                     collect.append((guard, self.expr(s.value, env, depth) if s.value is not None else ("const", None)))
@@ -662,6 +672,11 @@ class Sym:
         if isinstance(e, ast.Attribute):
             d = dotted(e)
             if d and d.startswith("self.") and d.count(".") == 1:
+                held = env.get(d)
+                if isinstance(held, tuple) and held and (held[0] in ("cmp", "and", "or", "not") or (
+                        held[0] == "method" and len(held) == 5 and not held[3] and not held[4]) or (held[0] == "call" and len(held) == 4 and held[1] == "bool")):
+                    # a flag stored on self earlier in this function (self._index_only = reader.is_index_file_only()) reads as the test it holds
+                    return held
                 return ("self", e.attr)
             if d and d.split(".")[0] in self.fi.module.imports and d.split(".")[0] not in env:
                 full = self._ext_name(d)
@@ -718,7 +733,13 @@ class Sym:
             out = []
             for op, c in zip(e.ops, e.comparators):
                 parts.append(self.expr(c, env, depth))
-                out.append(("cmp", CMPNAMES[type(op)], parts[-2], parts[-1]))
+                a_, b_ = parts[-2], parts[-1]
+                name = CMPNAMES[type(op)]
+                if a_[0] == "const" and b_[0] == "const" and a_[1] is None and b_[1] is None and name in ("is", "is not", "==", "!="):
+                    # a helper inlined with the literal None for a parameter it tests:  None is None
+                    out.append(("const", name in ("is", "==")))
+                    continue
+                out.append(("cmp", name, a_, b_))
             return out[0] if len(out) == 1 else ("and",) + tuple(out)
         if isinstance(e, ast.IfExp):
             return mkphi(self.expr(e.test, env, depth), self.expr(e.body, env, depth), self.expr(e.orelse, env, depth))
@@ -1160,6 +1181,10 @@ def item_of(value, i):
 def mkphi(test, a, b):
     if a == b:
         return a
+    if test == ("const", True):
+        return a
+    if test == ("const", False):
+        return b
     if a == ("const", True) and b == ("const", False):
         return test
     if a == ("const", False) and b == ("const", True):
@@ -1361,6 +1386,8 @@ def eval_cond(c, oracle):
         return None if r is None else (not r)
     if c[0] == "const":
         return bool(c[1])
+    if c[0] == "call" and c[1] == "bool" and len(c) >= 3 and len(c[2]) == 1:
+        return eval_cond(c[2][0], oracle)        # bool(x) holds exactly when x does
     return None
 
 
